@@ -13,6 +13,30 @@ for tc in root.iter('testcase'):
     if not any(ch.tag in ('failure', 'error', 'skipped') for ch in tc):
         passed.add(f"{tc.get('classname')}::{tc.get('name')}")
 missing = sorted(base - passed)
+# timing-sensitive protocol tests (fixed ports, 15 s timeouts) flake when the machine is loaded: re-run the missing ones alone
+import os, subprocess
+still = []
+for m in missing:
+    cls, name = m.split("::")
+    parts = cls.split(".")
+    sel = None
+    for f, k in (("/".join(parts) + ".py", None), ("/".join(parts[:-1]) + ".py", parts[-1])):
+        if os.path.exists(os.path.join("/repo", f)):
+            sel = f"{f}::{k}::{name}" if k else f"{f}::{name}"
+            break
+    ok = False
+    for _ in range(3):
+        if sel is None:
+            break
+        r = subprocess.run(f"cd /repo && PYTHONPATH=/repo/src /venv/bin/python -m pytest -q -p no:cacheprovider -p no:xdist -o addopts='' '{sel}'", shell=True, capture_output=True)
+        if r.returncode == 0:
+            ok = True
+            break
+    if not ok:
+        still.append(m)
+if missing:
+    print("missing in the parallel run:", missing, "-> still failing when run alone:", still)
+missing = still
 print(f"baseline stable_pass={len(base)} passed_now={len(passed)} baseline tests not passing now={len(missing)}")
 for m in missing[:40]:
     print("  NOT PASSING:", m)
